@@ -29,11 +29,12 @@ import (
 //         inside a metamethod (stale values above top, re-used frames),
 // and the outcome (returned values or the error message, addresses masked) must be the one of the
 // plain run. The variants are compiled by the real front end and judged by the Go port of wf_proto
-// (one in eight goes through coqc as an ordinary case); a Go panic in a variant's run, a variant
+// (one in sixteen goes through coqc as an ordinary case); a Go panic in a variant's run, a variant
 // that is not well formed and a different outcome are Go-side failures.
 
 type twinStats struct {
 	Runs, Compared, Incomparable, Rejected, RegKeys, Hist int
+	TwinTime, HistTime                                    time.Duration
 }
 
 var hexRe = regexp.MustCompile(`0x[0-9a-fA-F]+`)
@@ -206,6 +207,8 @@ func (c *ctx) twinsOf(i int, fr lib.Rand, size int, base string) {
 	if c.lastRes == nil {
 		return
 	}
+	t0 := time.Now()
+	defer func() { c.twin.TwinTime += time.Since(t0) }()
 	baseRes := *c.lastRes
 	if _, ok := outcomeOf(baseRes); !ok {
 		c.twin.Incomparable++
@@ -220,12 +223,12 @@ func (c *ctx) twinsOf(i int, fr lib.Rand, size int, base string) {
 	if i%2 == 1 {
 		k = 256 - 1 - (i/2)%24
 	}
-	c.twinOne(base, gen(k, 0), "kpad", baseRes, i%8 == 0)
+	c.twinOne(base, gen(k, 0), "kpad", baseRes, i%16 == 0)
 	switch i % 4 {
 	case 0:
 		c.twinOne(base, base, "grow", baseRes, false)
 	case 1:
-		c.twinOne(base, gen(0, 40), "rpad", baseRes, i%32 == 1)
+		c.twinOne(base, gen(0, 40), "rpad", baseRes, i%64 == 1)
 	case 2:
 		c.twinOne(base, base, "used", baseRes, false)
 	case 3:
@@ -407,6 +410,8 @@ func histOne(c *ctx, src string, isReplay bool) {
 }
 
 func history(c *ctx, tier string) {
+	t0 := time.Now()
+	defer func() { c.twin.HistTime += time.Since(t0) }()
 	runStressors()
 	// (1) every remembered source recompiled now
 	bad := map[int]bool{}
